@@ -1221,8 +1221,13 @@ def run(ctx):
         check_property_exception_visible(ctx, repo, out, cls)
     out.flush()
     check_nested_set_params(ctx, repo)
+    # every row of cv_results_ is evaluate() run on the candidate: what C07 decides about evaluate() itself (roles at the metric call,
+    # fold windows, strategy table, validators) is an obligation of the tuner as well
+    from . import c07 as _c07
+    _c07.reuse_rules(ctx, repo, "C07", _c07.run_core, [FUNCS, CLASSES], "R3", "evaluate-contract",
+                     "each candidate's row and therefore the selection rest on evaluate()")
     check_no_frozen_ctor_state(ctx, repo)
     ctx.floor("R1", 36)
     ctx.floor("R2", 9)
-    ctx.floor("R3", 70)
+    ctx.floor("R3", 71)
     ctx.floor("R4", 71)
